@@ -41,12 +41,14 @@ VARIABLES
   nd,      \* destructors registered since the last release (ids 1..nd)
   blocks,  \* live blocks returned by allocate: set of [a, n]
   intact,  \* canary model: no write of the resource has touched a live block
+  dj,      \* every block was disjoint from all live blocks when it was handed out
+  ins,     \* every block was inside owned memory when it was handed out (memory is only given back by release)
   pages,   \* page allocator side: addresses of the pages handed out
   ulive,   \* upstream side: blocks handed out [a, n, al, src]
   ucur,    \* upstream side: bump cursors [rec |-> .., dflt |-> ..]
   ev       \* the last operation with everything it did to the outside world
 
-vars == <<P, pas, oas, das, fb, fe, used, alloc, up, nd, blocks, intact, pages, ulive, ucur, ev>>
+vars == <<P, pas, oas, das, fb, fe, used, alloc, up, nd, blocks, intact, dj, ins, pages, ulive, ucur, ev>>
 
 -----------------------------------------------------------------------------
 RoundUp(x, a) == ((x + a - 1) \div a) * a
@@ -150,6 +152,10 @@ DoAlloc(s0, b, al) ==
 
 Overlap(x, y) == x.n > 0 /\ y.n > 0 /\ x.a < y.a + y.n /\ y.a < x.a + x.n
 Untouched(wr, bl) == \A w \in wr, b \in bl : ~Overlap(w, b)
+InsideOf(x, pgs, ups, psz) ==
+  \/ x.n = 0
+  \/ \E pg \in pgs : pg <= x.a /\ x.a + x.n <= pg + psz
+  \/ \E u \in ups : u.a <= x.a /\ x.a + x.n <= u.a + u.n
 
 Install(s) ==
   /\ pas' = s.pas /\ oas' = s.oas /\ das' = s.das /\ fb' = s.fb /\ fe' = s.fe
@@ -161,15 +167,18 @@ Init(pagesize) ==
   /\ P = pagesize
   /\ pas = <<>> /\ oas = <<>> /\ das = <<>>
   /\ fb = 0 /\ fe = 0 /\ used = 0 /\ alloc = 0 /\ up = "rec" /\ nd = 0
-  /\ blocks = {} /\ intact = TRUE
+  /\ blocks = {} /\ intact = TRUE /\ dj = TRUE /\ ins = TRUE
   /\ pages = {} /\ ulive = {} /\ ucur = UCur0
   /\ ev = NoEv
 
 Allocate(b, al) ==
   LET s == DoAlloc(Cur, b, al)
+      nb == [a |-> s.res, n |-> b]
   IN /\ Install(s)
-     /\ blocks' = blocks \cup {[a |-> s.res, n |-> b]}
+     /\ blocks' = blocks \cup {nb}
      /\ intact' = (intact /\ Untouched(s.wr, blocks))
+     /\ dj' = (dj /\ \A y \in blocks : ~Overlap(nb, y))
+     /\ ins' = (ins /\ InsideOf(nb, s.pages, s.ulive, P))
      /\ ev' = [NoEv EXCEPT !.op = "alloc", !.n = b, !.al = al, !.res = s.res, !.pal = s.pal, !.ual = s.ual]
      /\ UNCHANGED <<nd, P>>
 
@@ -178,13 +187,16 @@ RECURSIVE Many(_, _, _, _)
 Many(s, cnt, b, al) ==
   IF cnt = 0 THEN s
   ELSE LET s1 == DoAlloc([s EXCEPT !.wr = {}], b, al)
-       IN Many([s1 EXCEPT !.bl = @ \cup {[a |-> s1.res, n |-> b]},
-                          !.ok = @ /\ Untouched(s1.wr, s.bl)], cnt - 1, b, al)
+           nb == [a |-> s1.res, n |-> b]
+       IN Many([s1 EXCEPT !.bl = @ \cup {nb},
+                          !.ok = @ /\ Untouched(s1.wr, s.bl),
+                          !.dj = @ /\ \A y \in s.bl : ~Overlap(nb, y),
+                          !.ins = @ /\ InsideOf(nb, s1.pages, s1.ulive, P)], cnt - 1, b, al)
 AllocateMany(cnt, b, al) ==
-  LET s == Many(Cur @@ [bl |-> blocks, ok |-> intact], cnt, b, al)
+  LET s == Many(Cur @@ [bl |-> blocks, ok |-> intact, dj |-> dj, ins |-> ins], cnt, b, al)
   IN /\ Install(s)
      /\ blocks' = s.bl
-     /\ intact' = s.ok
+     /\ intact' = s.ok /\ dj' = s.dj /\ ins' = s.ins
      /\ ev' = [NoEv EXCEPT !.op = "am", !.n = b, !.al = al, !.id = cnt, !.res = s.res, !.pal = s.pal, !.ual = s.ual]
      /\ UNCHANGED <<nd, P>>
 
@@ -205,7 +217,7 @@ RegisterDestructor ==
              IN /\ Install(s2)
                 /\ intact' = (intact /\ Untouched(s.wr \cup {Hdr(s.res), DaEnt(s.res, 1)}, blocks))
                 /\ ev' = [NoEv EXCEPT !.op = "rd", !.id = id, !.fn = t.fn, !.pal = s.pal, !.ual = s.ual]
-     /\ UNCHANGED <<blocks, P>>
+     /\ UNCHANGED <<blocks, dj, ins, P>>
 
 RegisterMany(cnt) ==
   /\ cnt \in 1..CAP /\ Len(das) > 0 /\ Len(Last(das).ents) + cnt <= CAP
@@ -216,7 +228,7 @@ RegisterMany(cnt) ==
         /\ intact' = (intact /\ Untouched({DaEnt(arr.at, k0 + i) : i \in 1..cnt}, blocks))
         /\ nd' = nd + cnt
         /\ ev' = [NoEv EXCEPT !.op = "dm", !.id = cnt]
-  /\ UNCHANGED <<P, pas, oas, fb, fe, used, alloc, up, pages, ulive, ucur, blocks>>
+  /\ UNCHANGED <<P, pas, oas, fb, fe, used, alloc, up, pages, ulive, ucur, blocks, dj, ins>>
 
 (* contains(ptr), computed as the code does: the newest page counts up to its used part
    page_size - (free_end - free_begin), every other page entirely, oversize blocks with their size *)
@@ -232,7 +244,7 @@ ContainsRes(p) ==
 
 Contains(p) ==
   /\ ev' = [NoEv EXCEPT !.op = "contains", !.p = p, !.bres = ContainsRes(p)]
-  /\ UNCHANGED <<P, pas, oas, das, fb, fe, used, alloc, up, nd, blocks, intact, pages, ulive, ucur>>
+  /\ UNCHANGED <<P, pas, oas, das, fb, fe, used, alloc, up, nd, blocks, intact, dj, ins, pages, ulive, ucur>>
 
 (* release(): destruct_all (newest array first, newest task first), then every page array's pages in one
    deallocate batch (newest array first), then every oversize block to the CURRENT upstream *)
@@ -246,7 +258,7 @@ Release(opname) ==
   IN /\ pas' = <<>> /\ oas' = <<>> /\ das' = <<>>
      /\ fb' = (IF pas = <<>> THEN fb ELSE 0) /\ fe' = (IF pas = <<>> THEN fe ELSE 0)
      /\ used' = 0 /\ alloc' = 0 /\ nd' = 0
-     /\ blocks' = {} /\ intact' = TRUE
+     /\ blocks' = {} /\ intact' = TRUE /\ dj' = TRUE /\ ins' = TRUE
      /\ pages' = pages \ Range(Flatten(pfr))
      /\ ulive' = ul2
      /\ ucur' = [u \in {"rec", "dflt"} |-> IF \E e \in ul2 : e.src = u THEN ucur[u] ELSE UBase(u)]
@@ -257,14 +269,14 @@ Release(opname) ==
 (* operator=(&&) into an empty resource configured with the same page allocator and upstream: a swap *)
 MoveAssign ==
   /\ ev' = [NoEv EXCEPT !.op = "mva"]
-  /\ UNCHANGED <<P, pas, oas, das, fb, fe, used, alloc, up, nd, blocks, intact, pages, ulive, ucur>>
+  /\ UNCHANGED <<P, pas, oas, das, fb, fe, used, alloc, up, nd, blocks, intact, dj, ins, pages, ulive, ucur>>
 
 (* move constructor: delegates to the default constructor, then operator=(&&), which swaps
    _page_allocator but NOT _upstream: the new object points to new_delete_resource() *)
 MoveConstruct ==
   /\ up' = "dflt"
   /\ ev' = [NoEv EXCEPT !.op = "mvc"]
-  /\ UNCHANGED <<P, pas, oas, das, fb, fe, used, alloc, nd, blocks, intact, pages, ulive, ucur>>
+  /\ UNCHANGED <<P, pas, oas, das, fb, fe, used, alloc, nd, blocks, intact, dj, ins, pages, ulive, ucur>>
 
 -----------------------------------------------------------------------------
 (* L1: the clauses of property C06 *)
@@ -277,18 +289,21 @@ Aligned ==
   /\ ev.op = "alloc" => ev.res % ev.al = 0
   /\ \A k \in Book : k.a % 8 = 0
 
-Inside(x) ==
-  \/ x.n = 0
-  \/ \E pg \in pages : pg <= x.a /\ x.a + x.n <= pg + P
-  \/ \E u \in ulive : u.a <= x.a /\ x.a + x.n <= u.a + u.n
+Inside(x) == InsideOf(x, pages, ulive, P)
 
-InsideOwnedMemory == \A x \in blocks \cup Book : Inside(x)
+\* blocks: judged when handed out (`ins`; memory only leaves in release, which ends every block);
+\* bookkeeping arrays: in every state
+InsideOwnedMemory == ins /\ \A k \in Book : Inside(k)
+InsideOwnedMemoryFull == \A x \in blocks \cup Book : Inside(x)          \* the same, non-incremental (model checking)
 
+\* block against block: judged when handed out (`dj`, also catches the same block handed out twice);
+\* block against bookkeeping and bookkeeping against bookkeeping: in every state
 Disjoint ==
-  /\ \A x \in blocks, y \in blocks : x # y => ~Overlap(x, y)
+  /\ dj
   /\ \A x \in blocks, k \in Book : ~Overlap(x, k)
   /\ \A k1 \in Book, k2 \in Book : k1 # k2 => ~Overlap(k1, k2)
   /\ Cardinality(Book) = Len(pas) + Len(oas) + Len(das)
+DisjointFull == \A x \in blocks, y \in blocks : x # y => ~Overlap(x, y)       \* non-incremental (model checking)
 
 ContentsStable == intact
 
